@@ -427,12 +427,13 @@ class Runner:
         return "ok -" if r is None else "ok " + enc(r)
 
 
-DOC_VARIANT = (1, None, 0)   # passResolved, cliDefault, imxMode: the documented behaviour
+# passResolved, cliDefault, imxMode, accelerator default; the documented behaviour is (1, None, 0, <OPTIONS.md default>)
 KEYS = {
     "raw": "main-passes-args.config-instead-of-resolved-config_files",
     "clidefault": "arena-cache-size-parser-default-overrides-file-and-documented-default",
     "imx-u55": "main-no-config-ethos-u55-gets-imx93-u65-system-config",
     "imx-u65": "main-no-config-ethos-u65-default-is-high-end-not-documented-client-server",
+    "accdefault": "accelerator-config-parser-default-differs-from-documented-default",
 }
 
 
@@ -449,7 +450,8 @@ def run_checks(ck, vela, af):
 
 def _run_checks(ck, vela, af, rng, world, runner):
     thorough = ck.thorough
-    live_cli_default = _live_cli_default(vela)
+    live_cli_default, live_acc_default, doc_acc_default = _live_cli_defaults()
+    doc_variant = (1, None, 0, doc_acc_default)
     reqs = []          # model request lines
     reals = []         # implementation outcomes
     meta = []          # dict per request (kind, replay info, spec request)
@@ -651,9 +653,9 @@ def _run_checks(ck, vela, af, rng, world, runner):
             replay = {"call": "vela.main", "argv": argv, "cwd": os.path.relpath(cwd, world.root),
                       "bundled_config_dir": os.path.relpath(world.bundled, world.root),
                       "tree": {os.path.relpath(p, world.root): world.files[p] for p in env_files}}
-            add("main", "cfgmain 1 - 0 " + body, real, replay,
+            add("main", "cfgmain 1 - 0 %s " % enc(doc_acc_default) + body, real, replay,
                 spec_line="cfgspecmain " + body + " " + obs_tokens(real),
-                extra={"body": body, "acc": acc or "ethos-u65-256", "cwd_kind": os.path.relpath(cwd, world.root)})
+                extra={"body": body, "acc": acc, "cwd_kind": os.path.relpath(cwd, world.root)})
 
     # ---- the real bundled directory and the documented command lines ----------------------------
     real_bundled = vela.CONFIG_FILES_PATH
@@ -673,7 +675,7 @@ def _run_checks(ck, vela, af, rng, world, runner):
                         real = runner.run_main(argv, cwd, real_bundled)
                         files = {arm: arm_parsed}
                         body = " ".join(enc_env(real_bundled, cwd, files) + ["1", enc(cfg), opt(acc), opt(sysc), opt(mem), opt(arena)])
-                        add("main", "cfgmain 1 - 0 " + body, real,
+                        add("main", "cfgmain 1 - 0 %s " % enc(doc_acc_default) + body, real,
                             {"call": "vela.main", "argv": argv, "cwd": cwd, "bundled_config_dir": "(the repository's ethosu/config_files)"},
                             spec_line="cfgspecmain " + body + " " + obs_tokens(real),
                             extra={"body": body, "acc": acc, "cwd_kind": "real:" + os.path.basename(cwd)})
@@ -755,14 +757,15 @@ def _run_checks(ck, vela, af, rng, world, runner):
     for pr in (1, 0):
         for cd in sorted({None, live_cli_default}, key=lambda x: (x is not None, x)):
             for im in (0, 1, 2):
-                if (pr, cd, im) != DOC_VARIANT:
-                    variants.append((pr, cd, im))
+                for ad in sorted({doc_acc_default, live_acc_default}):
+                    if (pr, cd, im, ad) != doc_variant:
+                        variants.append((pr, cd, im, ad))
     for i, (m, r) in enumerate(zip(outs, reals)):
         if m == r:
             continue
         if meta[i]["kind"] == "main":
             for v in variants:
-                alt_reqs.append("cfgmain %d %s %d %s" % (v[0], opt_int(v[1]), v[2], meta[i]["body"]))
+                alt_reqs.append("cfgmain %d %s %d %s %s" % (v[0], opt_int(v[1]), v[2], enc(v[3]), meta[i]["body"]))
                 alt_owner.append((i, v))
         elif meta[i]["kind"] == "af":
             for line in meta[i]["alt"]:
@@ -775,6 +778,7 @@ def _run_checks(ck, vela, af, rng, world, runner):
             matched.setdefault(i, []).append(v)
 
     def deviations(v, acc):
+        acc = acc or v[3]
         d = []
         if v[0] == 0:
             d.append("raw")
@@ -784,6 +788,8 @@ def _run_checks(ck, vela, af, rng, world, runner):
             d.append("imx-u65" if acc.startswith("ethos-u65") else "imx-u55")
         elif v[2] == 2:
             d.append("imx-u65")
+        if v[3] != doc_acc_default:
+            d.append("accdefault")
         return d
 
     broken = []           # correspondences that no longer hold (indices)
@@ -866,6 +872,8 @@ def _run_checks(ck, vela, af, rng, world, runner):
         "error_kinds_hit": err_kinds,
         "unreached_branches": sorted(model_err_kinds - set(err_kinds)),
         "live_cli_arena_cache_size_default": live_cli_default,
+        "live_cli_accelerator_default": live_acc_default,
+        "documented_accelerator_default": doc_acc_default,
         "exhaustive": "all 7x7 AXI port values x 2x2x2 area-to-port mappings (x 2 accelerators); the rest is sampled",
     }, assumptions=[
         "ConfigParser (parsing of the .ini text, option-name lower-casing, merge of several files) is trusted glue: model and spec take its parsed view",
@@ -876,11 +884,15 @@ def _run_checks(ck, vela, af, rng, world, runner):
     ])
 
 
-def _live_cli_default(vela):
+def _live_cli_defaults():
     sys.path.insert(0, common.HERE)
-    from tables.config import grab_parser
+    from tables.config import doc_default_names, grab_parser
 
-    return grab_parser().get_default("arena_cache_size")
+    p = grab_parser()
+    doc = doc_default_names(common.REPO, [])["accelerator"]
+    if doc is None:
+        raise InfraError("OPTIONS.md: no documented default for --accelerator-config found")
+    return p.get_default("arena_cache_size"), p.get_default("accelerator_config"), doc
 
 
 def replay(ck):
